@@ -52,6 +52,9 @@ func genC18(seed int64, n int) *c18Prog {
 		if rng.Intn(6) == 0 {
 			k = 16
 		}
+		if rng.Intn(7) == 0 {
+			k = 17
+		}
 		if last && rng.Intn(2) == 0 {
 			k = 12
 		}
@@ -148,6 +151,26 @@ func genC18(seed int64, n int) *c18Prog {
 				p.stmts = append(p.stmts, fmt.Sprintf("for n := 0; n < 3; n++ {\n\tq := n / 2\n\t%s += q\n}", x))
 			default:
 				p.stmts = append(p.stmts, fmt.Sprintf("if %s != %s {\n\tvar bb byte = 250\n\tbb += 10\n\t%s += int(bb)\n} else {\n\ts := \"ab\"\n\t%s += len(s)\n}", x, y, x, x))
+			}
+		case 17:
+			// switches (tag-less and tagged), at top level and inside a function declared at top level; declarations
+			// that follow must still be globals
+			switch rng.Intn(3) {
+			case 0:
+				if x == "in0" || x == "in1" {
+					continue
+				}
+				p.stmts = append(p.stmts, fmt.Sprintf("switch {\ncase %s > %s:\n\t%s = 1\ndefault:\n\t%s++\n}", x, y, x, x))
+			case 1:
+				f := newName("sg")
+				p.stmts = append(p.stmts, fmt.Sprintf("func %s(v, w int) int {\n\tswitch {\n\tcase v < 0:\n\t\treturn -1\n\tcase v > w:\n\t\treturn 2\n\t}\n\treturn 1\n}", f))
+				p.globals = append(p.globals, f)
+				funcs = append(funcs, f)
+			default:
+				if x == "in0" || x == "in1" {
+					continue
+				}
+				p.stmts = append(p.stmts, fmt.Sprintf("switch %s {\ncase 1, 2:\n\t%s += 5\ncase %s:\n\t%s = 0\n}", y, x, x, x))
 			}
 		case 16:
 			// the header of a top-level block redeclares the name of a global: after the block the name is the global again
